@@ -464,9 +464,13 @@ def own_args(o):
         out += [(o[0],), (o[0], 1), (me,), (one,), (0,), (slice(0, 1),)]
     if isinstance(o, dns.node.Node) and len(o.rdatasets) > 0:
         r = o.rdatasets[0]
-        rep = dns.rdataset.Rdataset(r.rdclass, r.rdtype, r.covers, 1)
-        rep.add(r[0])
-        out += [(r.rdclass, r.rdtype, r.covers), (r.rdclass, r.rdtype, r.covers, True), (rep,)]
+        out += [(r.rdclass, r.rdtype, r.covers), (r.rdclass, r.rdtype, r.covers, True)]
+        full = [x for x in o.rdatasets if len(x) > 0]  # a node may hold rdatasets with no rdatas
+        if full:
+            rep = dns.rdataset.Rdataset(full[0].rdclass, full[0].rdtype, full[0].covers, 1)
+            rep.add(full[0][0])
+            out.append((rep,))
+        out.append((dns.rdataset.Rdataset(r.rdclass, r.rdtype, r.covers, 1),))
     return out
 
 
